@@ -263,6 +263,47 @@ def task(t):
             rec('broken:' + e.what, e.what, case, **e.detail)
         except Exception as e:  # noqa
             rec('exception:' + type(e).__name__, 'raised %r' % (e,), case)
+    # the same Function objects after reorderings (a view must not remember the old shape)
+    seq0 = sorted(bdd.vars, key=bdd.vars.get)
+    phases = []
+    if n >= 3:
+        lowswap = list(seq0)
+        lowswap[-1], lowswap[-2] = lowswap[-2], lowswap[-1]
+        phases.append(('swap-lowest', lowswap))
+    phases.append(('reverse', list(reversed(seq0))))
+    for pname, seq in phases:
+        try:
+            bdd.reorder({v: i for i, v in enumerate(seq)})
+        except Exception as e:  # noqa
+            rec('reorder-exception', 'reorder raised %r' % (e,), dict(task=t))
+            break
+        order = dict(bdd.vars)
+        for fu in mine:
+            if focus is not None and fu != focus:
+                continue
+            u = fn[fu]
+            case = dict(task=t[:-1] + (fu,), u=U.fmt(fu), after=pname)
+            try:
+                rep.add('evaluations', 3)
+                if traverse_function(u, U) != fu:
+                    rec('after-reorder:traverse', 'traversal of a Function is wrong after '
+                        'reordering', case)
+                k = len(O.reachable(raw, [u.node]))
+                if len(u) != k or u.dag_size != k:
+                    rec('after-reorder:len', 'len(u)/dag_size is not the number of reachable '
+                        'nodes after reordering', case, got=len(u), want=k)
+                if set(raw.descendants([u.node])) != O.reachable(raw, [u.node]):
+                    rec('after-reorder:descendants', 'descendants is wrong after reordering', case)
+                if u.var is not None and u.level != order[u.var]:
+                    rec('after-reorder:level', 'Function.level is wrong after reordering', case)
+                if fu % 8 == 3:
+                    views([fu], case)
+                if fu not in (0, U.full):
+                    rep.add('nontrivial', 3)
+            except Violation as e:
+                rec('after-reorder-broken:' + e.what, e.what, case, **e.detail)
+            except Exception as e:  # noqa
+                rec('after-reorder-exception:' + type(e).__name__, 'raised %r' % (e,), case)
     # roots=None: all stored nodes
     if si == 0 and focus is None:
         try:
